@@ -229,7 +229,7 @@ def compare_read(layout, res, scale):
                 out.append(("count", {"field": gname, "got": len(got), "want": len(want)}, "%d %s, expected %d" % (len(got), gname, len(want))))
                 continue
             for (el, d), g in zip(want, got):
-                pos = c["elements"].index(el)
+                pos = [k for k, x in enumerate(c["elements"]) if x is el][0]
                 tags = {"record": el["kind"], "position": pos}
                 for k in ("rec", "ctype", "ptype", "vertical", "square"):
                     if k in el:
@@ -1124,6 +1124,8 @@ def main():
             sp = get_space(n)
             complete = d["done_groups"] == d["groups"] and not d["skipped"]
             emit({"type": "bound", "sub_check": n, "bound": sp.describe(args.tier), "complete": complete, "cases": d["cases"], "groups_done": d["done_groups"], "groups": d["groups"]})
+        emit({"type": "note", "text": "counter stdprop_written_with_S_bit_clear = files whose S_* properties (other than S_GDS_PROPERTY) carry S=0 in the PROPERTY info byte; "
+                                      "they are recognised as standard properties by name and not reported (the property text does not speak about the S bit)"})
         emit({"type": "note", "text": "C04 oracle: independent codec codec/oas_codec.py written from DESIGN.md A.2; geometry-w/h after a one-dimension CTRAPEZOID type, and "
                                       "all modal variables after a <name> record, are treated as undefined by the encoder (never relied upon); X records are outside the alphabet"})
         emit({"type": "done", "wall_s": round(time.time() - T0, 2), "deadline_hit": deadline_hit})
@@ -1649,7 +1651,8 @@ def check_facts(layout, facts, model, case, src, model_equal=True):
     sbit_clear = sorted({p["name"].decode() for p in layout["props"] if is_std(p["name"]) and not p["std"]} |
                         {p["name"].decode() for c in layout["cells"] for p in c["name_props"] + c["props"] if is_std(p["name"]) and not p["std"]})
     if sbit_clear:
-        bad("stdprop.sbit_clear", "standard properties %s are written with S=0 (the info byte marks them as user properties)" % ", ".join(sbit_clear), names=",".join(sbit_clear))
+        # not demanded by the property text: S_* named properties are recognised as standard regardless of the S bit
+        out.append(("_sbit", {}, ",".join(sbit_clear)))
 
     def single_uint(name):
         pl = fileprops.get(name, [])
@@ -1663,11 +1666,15 @@ def check_facts(layout, facts, model, case, src, model_equal=True):
                                    (b"S_POLYGON_MAX_VERTICES", facts["polygon_max_vertices"], "largest POLYGON vertex count in the file"),
                                    (b"S_PATH_MAX_VERTICES", facts["path_max_vertices"], "largest PATH vertex count in the file")):
             v = single_uint(name)
+            src_poly_max = max([len(p["points"]) for c in src["cells"] for p in c["polygons"]] or [0])
+            if name == b"S_POLYGON_MAX_VERTICES" and v is not None and actual <= v <= src_poly_max:
+                continue  # polygons written as RECTANGLE/TRAPEZOID/CTRAPEZOID/CIRCLE still denote polygons with that many vertices
             if v is not None and v != actual:
                 shape_recs = int(any(rid in (20, 23, 24, 25, 26, 27) for _, rid in facts["records"]))
                 multi = int(any(len(fp["elements"]) > 1 for c in src["cells"] for fp in c["flexpaths"]))
                 bad("stdprop.max." + ("understated" if v < actual else "overstated"), "%s = %d but the %s is %d" % (name.decode(), v, what, actual), name=name.decode(),
-                    file_has_shape_records=shape_recs, multi_element_path=multi)
+                    file_has_shape_records=shape_recs, multi_element_path=multi,
+                    source_path_has_duplicate_points=int(any(fp["spine"][i] == fp["spine"][i + 1] for c in src["cells"] for fp in c["flexpaths"] for i in range(len(fp["spine"]) - 1))))
         for name, actual in ((b"S_MAX_SIGNED_INTEGER_WIDTH", facts["max_sint"]), (b"S_MAX_UNSIGNED_INTEGER_WIDTH", facts["max_uint"])):
             v = single_uint(name)
             need = max(1, (actual.bit_length() + (1 if b"_SIGNED" in name else 0) + 7) // 8)
@@ -1791,10 +1798,13 @@ def exec_d2(space, ids, cases, exe, scratch):
             if cls == "_skip":
                 count("bbox_checks_skipped_not_exactly_computable")
                 continue
+            if cls == "_sbit":
+                count("stdprop_written_with_S_bit_clear")
+                continue
             viol(cls, tags, detail)
         recs = sorted({rid for _, rid in facts["records"]})
-        res["outcomes"].add((space.name, "%s|%d|%s" % (recs, facts["validation"][0], sorted({m[0] for m in mm + ff}))))
-        if not mm and not ff and not res["samples"]:
+        res["outcomes"].add((space.name, "%s|%d|%s" % (recs, facts["validation"][0], sorted({m[0] for m in mm + ff if not m[0].startswith("_")}))))
+        if not mm and not [f for f in ff if not f[0].startswith("_")] and not res["samples"]:
             res["samples"].append({"sub_check": space.name, "case": {"library_commands": case["cmds"], "level": case["level"], "flags": case["flags"], "records_in_file": recs,
                                                                       "result": "strict decode equals the saved library; END/table offsets/signature/standard properties true"}})
     return res
